@@ -9,13 +9,14 @@ from core import guard_switches, must_pass, fmt_path, has_origin
 
 EXPLANATION = ("Decides structural clauses of C04, not panic freedom: every panic-capable site of the library (explicit panics, "
                "unwrap/expect, MIR bounds/overflow/division asserts, slice indexing and buffer primitives with length preconditions) is "
-               "either discharged by a local tactic (constant arithmetic, constant/masked shifts, bounded length accumulators, bounds taken "
-               "from min(), subtraction/index dominated by a rejecting length comparison on the same receiver) or listed by exact key in the "
+               "either discharged - by exact constant arguments (constant arithmetic / shift / range), by the zone analysis of the function body "
+               "(difference-bound abstract interpretation over integers, lengths and pure size accessors; engine/zones.py, calibrated on every "
+               "run against selftest/zonecases), or by the 64-bit width argument for sums of in-memory lengths - or listed by exact key in the "
                "reviewed baseline — a new undischarged site, or a site whose guard disappeared, is reported with function and line; "
                "recursion (resolved call graph SCCs) must equal the reviewed inventory, and the data-driven one (embedded signatures) must "
                "carry a rejecting depth guard with depth + 1 passed down. Not decided: loop termination, stack depth in octets, panics inside "
                "dependency crates.")
-ASSUMPTIONS = ["baseline entries are reviewed by class, not proven (DESIGN §8)", "tactics do not check the polarity of a guard"]
+ASSUMPTIONS = ["baseline entries are reviewed by class, not proven (DESIGN §8)", "the zone analysis trusts the call axioms listed in engine/zones.py (std / bytes length semantics; pure size accessors of the crate)"]
 
 REC_REVIEWED = {
     'embedded-signature parsing': (['packet::signature::de::embedded_sig', 'packet::signature::de::subpacket', 'packet::signature::de::subpackets',
